@@ -3,3 +3,6 @@ import Props.C07
 #print axioms C07.safe_surface_ok_partial
 #print axioms C07.class_member_bare_name_missing
 #print axioms C07.safe_class_member_ok
+#print axioms C07.safe_underscore_member_kept
+#print axioms C07.safe_underscore_toplevel_kept
+#print axioms C07.underscore_member_needs_class_lookup
